@@ -306,6 +306,9 @@ func httpOp(s *server, d *graphDesc, lv *live, rec recOp) []recOp {
 		rec.Ret = atomic.AddInt64(&clock, 1)
 		rec.Status, rec.Fail = r.status, r.fail
 		rec.Out = string(r.body)
+		if r.status == 200 {
+			rec.Out = readCanon(d.Params[op.Param].Kind, rec.Out)
+		}
 	case opArtifact:
 		if op.Zip {
 			rec.Call = atomic.AddInt64(&clock, 1)
